@@ -1,7 +1,10 @@
 use crate::infra::{Run, Violation};
 use serde_json::Value;
 
+pub mod c12;
+pub mod c13;
 pub mod c15;
+pub mod cfgcheck;
 pub mod c16;
 
 pub struct Entry {
@@ -12,6 +15,8 @@ pub struct Entry {
 
 pub fn lookup(id: &str) -> Option<Entry> {
     Some(match id {
+        "C12" => Entry { level: "exploration", run: c12::run, replay: c12::replay },
+        "C13" => Entry { level: "model_checking", run: c13::run, replay: c13::replay },
         "C15" => Entry { level: "exploration", run: c15::run, replay: c15::replay },
         "C16" => Entry { level: "exploration", run: c16::run, replay: c16::replay },
         _ => return None,
